@@ -24,6 +24,13 @@ func setMapSalt(s uint64)
 //go:linkname goid
 func goid() uint64
 
+//go:linkname setPoolDrop
+func setPoolDrop(b bool)
+
+// SetPoolDrop decides whether sync.Pool retains items (false) or drops every
+// item put into it (true, the default of the simulation binary).
+func SetPoolDrop(b bool) { setPoolDrop(b) }
+
 const MaxTasks = 8
 
 // Modes of the simulator.
